@@ -439,11 +439,13 @@ fn c07_items(tier: Tier) -> Vec<C07Item> {
             Cfg::fast(Kind::FO, ratio, 1.0, 1, Degree::Linear),
             Cfg::fast(Kind::FI, ratio, 1.0, 1, Degree::Linear),
         ];
-        {
+        if !q || t < 1.0 {
             fine.push(Cfg::sinc(Kind::SO, ratio, 1.0, 1, 8, 2, Interp::Nearest, Kernel::Probe));
             fine.push(Cfg::sinc(Kind::SI, ratio, 1.0, 1, 8, 2, Interp::Nearest, Kernel::Probe));
-            fine.push(Cfg::fast(Kind::FO, ratio, 1.0, 1, Degree::Septic));
-            fine.push(Cfg::fast(Kind::FI, ratio, 1.0, 1, Degree::Septic));
+            if !q {
+                fine.push(Cfg::fast(Kind::FO, ratio, 1.0, 1, Degree::Septic));
+                fine.push(Cfg::fast(Kind::FI, ratio, 1.0, 1, Degree::Septic));
+            }
         }
         for c in fine {
             items.push(C07Item { cfgs: vec![(c, vec![])], horizon: Some(3 * (1 << 22) + 1000) });
@@ -458,10 +460,32 @@ fn c07_items(tier: Tier) -> Vec<C07Item> {
             pairs.push((a, b));
         }
     }
-    pairs.extend([(147, 160), (160, 147), (44100, 48000), (48000, 8000)]);
+    pairs.extend([(147, 160), (160, 147), (44100, 48000), (48000, 8000), (44100, 44110)]);
+    // wider sweep of rate pairs with three requested sizes each (block-size arithmetic: gcd,
+    // rounding of the block count, products that are not exact in floating point)
+    let wide = if q { 24 } else { 64 };
+    for a in 1..=wide {
+        let mut cfgs = Vec::new();
+        for b in 1..=wide {
+            if a <= maxrate && b <= maxrate {
+                continue;
+            }
+            for chunk in [1usize, 2 * a + 1, 64] {
+                for sub in 1..=2usize {
+                    if chunk / sub == 0 {
+                        continue;
+                    }
+                    cfgs.push((Cfg::fft(Kind::XI, a, b, chunk, sub), vec![]));
+                    cfgs.push((Cfg::fft(Kind::XO, a, b, chunk, sub), vec![]));
+                }
+                cfgs.push((Cfg::fft(Kind::XX, a, b, chunk, 1), vec![]));
+            }
+        }
+        items.push(C07Item { cfgs, horizon: None });
+    }
     for (a, b) in pairs {
         let mut cfgs = Vec::new();
-        let chunks: Vec<usize> = if a > 100 { vec![64, 1000] } else { (1..=maxchunk).collect() };
+        let chunks: Vec<usize> = if a > 100 { vec![64, 1000, 10000] } else { (1..=maxchunk).collect() };
         for chunk in chunks {
             for sub in 1..=4usize {
                 if chunk / sub == 0 {
@@ -691,7 +715,7 @@ impl Check for C07 {
         crate::frame::replay_by_item(self, replay)
     }
     fn rule(&self, _tier: Tier) -> String {
-        "per configuration (type x ratio x chunk x filter, sinc also with three periodic set_chunk_size schedules, one of them with sizes that are set and replaced before use; steps 1 -+ 2^-22 with 1-frame chunks, orbit of 2^22 calls; FFT: every rate pair x chunk x sub_chunks): follow P (or the schedule) on the real object until (control fingerprint, schedule phase) repeats; check |out - r*in| <= r*(L+1/r+3)+3 at every step and exact out*den == in*num over the cycle; FFT: 0 <= in*b - out*a < one block at every step, == 0 for FftFixedInOut, block-size formula".into()
+        "per configuration (type x ratio x chunk x filter, sinc also with three periodic set_chunk_size schedules, one of them with sizes that are set and replaced before use; steps 1 -+ 2^-22 with 1-frame chunks, orbit of 2^22 calls; FFT: every rate pair up to 8 (12) x chunk x sub_chunks, all pairs up to 24 (64) with three requested sizes): follow P (or the schedule) on the real object until (control fingerprint, schedule phase) repeats; check |out - r*in| <= r*(L+1/r+3)+3 at every step and exact out*den == in*num over the cycle; FFT: 0 <= in*b - out*a < one block at every step, == 0 for FftFixedInOut, block-size formula".into()
     }
     fn assumptions(&self) -> Vec<String> {
         vec![
